@@ -121,28 +121,48 @@ def split_targets():
 
 
 def pairing_obligation(run):
-    """features and labels are gathered with the same index list in the same order (syntactic, on the AST of split_dataset)"""
+    """features and labels are gathered with the same index list in the same order (syntactic, on the AST of split_dataset): every gather `[D[i] for i in I]` -- written out,
+    or through a helper of the same file whose body is such a comprehension over its parameters -- is collected; an index list must be used for the features AND for the
+    labels.  A construction the rule does not recognise is not judged here (the run-time part checks the pairing on every split it executes)."""
     src = open(os.path.join(os.environ.get("VERIF_REPO", "/repo"), DATA)).read()
-    fn = [n for n in ast.parse(src).body if isinstance(n, ast.FunctionDef) and n.name == "split_dataset"][0]
-    pairs = {}
+    tree = ast.parse(src)
+    fn = [n for n in tree.body if isinstance(n, ast.FunctionDef) and n.name == "split_dataset"][0]
+    xname, yname = fn.args.args[0].arg, fn.args.args[1].arg
+    helpers = {n.name: n for n in list(tree.body) + list(ast.walk(fn)) if isinstance(n, ast.FunctionDef) and n is not fn}
+
+    def gather_of(e, depth=0):
+        """(source name, index-list name) if e builds [source[i] for i in index_list] (possibly wrapped in np.array(...) / list(...) or delegated to a helper), else None"""
+        if isinstance(e, ast.Call) and e.args and isinstance(e.args[0], (ast.ListComp, ast.GeneratorExp)) and not isinstance(e.func, ast.Lambda):
+            e = e.args[0]
+        if isinstance(e, (ast.ListComp, ast.GeneratorExp)) and len(e.generators) == 1:
+            g = e.generators[0]
+            if isinstance(e.elt, ast.Subscript) and isinstance(e.elt.value, ast.Name) and isinstance(g.iter, ast.Name) and not g.ifs \
+                    and isinstance(e.elt.slice, ast.Name) and isinstance(g.target, ast.Name) and e.elt.slice.id == g.target.id:
+                return (e.elt.value.id, g.iter.id)
+            return None
+        if isinstance(e, ast.Call) and isinstance(e.func, ast.Name) and e.func.id in helpers and depth < 3 and not e.keywords:
+            h = helpers[e.func.id]
+            rets = [n for n in ast.walk(h) if isinstance(n, ast.Return)]
+            if len(rets) == 1 and rets[0].value is not None:
+                inner = gather_of(rets[0].value, depth + 1)
+                ps = [a.arg for a in h.args.args]
+                if inner and inner[0] in ps and inner[1] in ps and all(isinstance(a, ast.Name) for a in e.args) and len(e.args) >= max(ps.index(inner[0]), ps.index(inner[1])) + 1:
+                    return (e.args[ps.index(inner[0])].id, e.args[ps.index(inner[1])].id)
+        return None
+    by_index = {}
     for node in ast.walk(fn):
-        if isinstance(node, ast.Assign) and isinstance(node.targets[0], ast.Name) and isinstance(node.value, ast.Call):
-            call = node.value
-            if call.args and isinstance(call.args[0], ast.ListComp):
-                lc = call.args[0]
-                g = lc.generators[0]
-                if isinstance(lc.elt, ast.Subscript) and isinstance(lc.elt.value, ast.Name) and isinstance(g.iter, ast.Name) and not g.ifs \
-                        and isinstance(lc.elt.slice, ast.Name) and isinstance(g.target, ast.Name) and lc.elt.slice.id == g.target.id:
-                    pairs[node.targets[0].id] = (lc.elt.value.id, g.iter.id)
-    want = {"X_train": ("X", "train_indices"), "y_train": ("y", "train_indices"), "X_test": ("X", "test_indices"), "y_test": ("y", "test_indices"),
-            "X_val": ("X", "val_indices"), "y_val": ("y", "val_indices")}
-    for k, v in want.items():
+        if isinstance(node, ast.Assign) and isinstance(node.targets[0], ast.Name):
+            g = gather_of(node.value)
+            if g and g[0] in (xname, yname):
+                by_index.setdefault(g[1], []).append(g[0])
+    run.extra["split_gathers_recognised"] = {k: v for k, v in by_index.items()}
+    for idx, sources in sorted(by_index.items()):
         run.obligations += 1
-        if pairs.get(k) == v:
+        if sorted(sources) == sorted([xname, yname]):
             run.add_counts(discharged=1, backend="static-ast")
         else:
-            run.violation(MOD + "split_dataset.features_and_labels_use_the_same_indices", "%s is built as %s, expected [%s[i] for i in %s]" % (k, pairs.get(k), v[0], v[1]),
-                          key={"array": k}, replay={"found": str(pairs.get(k)), "verifier_output": "static AST obligation"}, reproduced=False)
+            run.violation(MOD + "split_dataset.features_and_labels_use_the_same_indices", "the index list %s is used to gather %s: features and labels of one split must both be gathered with it, once each" % (idx, sources),
+                          key={"index_list": idx}, replay={"found": {idx: sources}, "verifier_output": "static AST obligation"}, reproduced=False)
     # the returned triples pair X_* with y_* of the same split
     ret = [n for n in ast.walk(fn) if isinstance(n, ast.Return)]
     run.under_contract(MOD + "split_dataset")
